@@ -1,2 +1,505 @@
-import DuneVerif.Common.Proto
-def main : IO Unit := DV.runDriver fun _ => "bad-op"
+import DuneVerif.Model.C16
+/-! line-protocol driver for C16 (see harness/cxx_c16.cc for the op line grammar)
+
+  it <kind> <vals|from:to> <op> <p> [<n|q>] <cv>
+  rg <kind> <spec> <op> [args]
+  hy <ckind> <vals|from:to> <op> [args]
+-/
+open DV DV.C16
+
+namespace C16Drv
+
+def showB (b : Bool) : String := if b then "true" else "false"
+
+/-- optional `-`, then digits; at most `maxLen` characters (the harness' `isInt` / `isLong`) -/
+def parseIntN (maxLen : Nat) (s : String) : Option Int :=
+  let cs := s.toList
+  if cs.isEmpty || cs.length > maxLen then none else
+  let ds := if cs.head? == some '-' then cs.drop 1 else cs
+  if ds.isEmpty || !ds.all Char.isDigit then none else
+  let v : Nat := ds.foldl (fun acc c => acc * 10 + (c.toNat - '0'.toNat)) 0
+  some (if cs.head? == some '-' then -(v : Int) else (v : Int))
+
+def parseInt12 := parseIntN 12
+
+def longMin : Int := -(2 ^ 63)
+def longMax : Int := 2 ^ 63 - 1
+
+def parseLong (s : String) : Option Int :=
+  match parseIntN 20 s with
+  | some v => if longMin ≤ v ∧ v ≤ longMax then some v else none
+  | none => none
+
+/-- `[a,b,c]` with at most `maxLen` entries of absolute value at most `maxAbs` -/
+def parseVals (s : String) (maxLen : Nat) (maxAbs : Int) : Option (List Int) :=
+  let cs := s.toList
+  if cs.length < 2 || cs.head? != some '[' || cs.getLast? != some ']' then none else
+  let inner := String.ofList ((cs.drop 1).dropLast)
+  if inner.isEmpty then some [] else
+  match (inner.splitOn ",").mapM parseInt12 with
+  | some l => if l.length ≤ maxLen ∧ l.all (fun v => decide (-maxAbs ≤ v ∧ v ≤ maxAbs)) then some l else none
+  | none => none
+
+def parseFromTo (s : String) : Option (Int × Int) :=
+  match s.splitOn ":" with
+  | [a, b] => match parseLong a, parseLong b with
+    | some f, some t => some (f, t)
+    | _, _ => none
+  | _ => none
+
+/-- kind token `name` or `name+k` (k ≤ 64) -/
+def splitPlus (s : String) : Option (String × Option Nat) :=
+  match s.splitOn "+" with
+  | [n] => some (n, none)
+  | [n, k] => match parseInt12 k with
+    | some v => if 0 ≤ v ∧ v ≤ 64 ∧ !(k.toList.head? == some '-') then some (n, some v.toNat) else none
+    | none => none
+  | _ => none
+
+/-- (bits, signed) of the integral types the harness instantiates -/
+def irType : String → Option (Nat × Bool)
+  | "ir_i8" => some (8, true) | "ir_u8" => some (8, false) | "ir_i16" => some (16, true)
+  | "ir_i32" => some (32, true) | "ir_u32" => some (32, false)
+  | "ir_i64" => some (64, true) | "ir_u64" => some (64, false)
+  | _ => none
+
+def typeFits (bits : Nat) (sgn : Bool) (f t : Int) : Bool :=
+  if f > t then false
+  else if bits = 64 ∧ !sgn then decide (f ≥ 0)
+  else if sgn then decide (-(2 ^ (bits - 1)) ≤ f ∧ t ≤ 2 ^ (bits - 1) - 1)
+  else decide (0 ≤ f ∧ t ≤ 2 ^ bits - 1)
+
+/-- operations of one iterator kind, as the facade (or the hand-written class) derives them -/
+structure Ops (I : Type) where
+  mkAt : Int → I
+  showI : I → String
+  inc : I → I
+  dec : I → I
+  postInc : I → I × I
+  postDec : I → I × I
+  addAssign : I → Int → I
+  subAssign : I → Int → I
+  plusPos : I → Int → Int
+  minusPos : I → Int → Int
+  nplusPos : I → Int → Int
+  at_ : I → Int → Option Int
+  deref : I → Option Int
+  index : I → Int
+  rel : String → Bool → I → I → Option Bool
+  diff : Bool → I → I → Int
+
+structure KInfo where
+  cat : Nat
+  lo : Int
+  n : Int
+  mixedRel : Bool
+  nplus : Bool
+  hasIndex : Bool
+  oneWay : Bool      -- only mutable → const converts (`is_convertible<const,mutable>` is false)
+
+def legacyOps (bidi : Bool) (c : List Int) : Ops It where
+  mkAt p := ⟨0, p⟩
+  showI i := toString i.pos
+  inc := Legacy.preInc posCore
+  dec := Legacy.preDec posCore
+  postInc := Legacy.postInc posCore
+  postDec := Legacy.postDec posCore
+  addAssign := Legacy.addAssign posCore
+  subAssign := Legacy.subAssign posCore
+  plusPos i n := (Legacy.plus posCore i n).pos
+  minusPos i n := (Legacy.minus posCore i n).pos
+  nplusPos i n := (Legacy.plus posCore i n).pos
+  at_ := elementAt c
+  deref := dereference c
+  index i := i.pos
+  rel op conv l r := match op with
+    | "eq" => some (Legacy.eq posCore conv l r)
+    | "ne" => some (if bidi then Legacy.neBidi posCore conv l r else Legacy.ne posCore conv l r)
+    | "lt" => some (Legacy.lt posCore conv l r)
+    | "le" => some (Legacy.le posCore conv l r)
+    | "gt" => some (Legacy.gt posCore conv l r)
+    | "ge" => some (Legacy.ge posCore conv l r)
+    | _ => none
+  diff := Legacy.diff posCore
+
+def irOps (from_ : Int) : Ops IR where
+  mkAt p := ⟨from_ + p⟩
+  showI i := toString (i.value - from_)
+  inc := IR.inc
+  dec := IR.dec
+  postInc := IR.postInc
+  postDec := IR.postDec
+  addAssign := IR.addAssign
+  subAssign := IR.subAssign
+  plusPos i n := (IR.plus i n).value - from_
+  minusPos i n := (IR.minus i n).value - from_
+  nplusPos i n := (IR.nplus n i).value - from_
+  at_ i n := some (IR.index i n)
+  deref i := some (IR.deref i)
+  index _ := 0
+  rel op _ l r := match op with
+    | "eq" => some (IR.eq l r) | "ne" => some (IR.ne l r)
+    | "lt" => some (IR.lt l r) | "le" => some (IR.le l r)
+    | "gt" => some (IR.gt l r) | "ge" => some (IR.ge l r)
+    | _ => none
+  diff _ := IR.diff
+
+/-- `IteratorFacade` over a base iterator `B`; `drf` is the derived class' `operator*` -/
+def newOps {B : Type} (b : Base B) (mk : Int → B) (pos : B → Int) (drf : B → Option Int) : Ops B where
+  mkAt := mk
+  showI i := toString (pos i)
+  inc := NewF.preInc b
+  dec := NewF.preDec b
+  postInc := NewF.postInc b
+  postDec := NewF.postDec b
+  addAssign := NewF.addAssign b
+  subAssign := NewF.subAssign b
+  plusPos i n := pos (NewF.plus b i n)
+  minusPos i n := pos (NewF.minus b i n)
+  nplusPos i n := pos (NewF.plus b i n)
+  at_ i n := NewF.index b drf i n
+  deref := drf
+  index _ := 0
+  rel op _ l r := match op with
+    | "eq" => some (NewF.eq b l r) | "ne" => some (NewF.ne b l r)
+    | "lt" => some (NewF.lt b l r) | "le" => some (NewF.le b l r)
+    | "gt" => some (NewF.gt b l r) | "ge" => some (NewF.ge b l r)
+    | _ => none
+  diff _ := NewF.diff b
+
+def fT (x : Int) : Int := 3 * x + 1
+
+/-- IndexedIterator over std iterators; comparisons, `it[n]`, `it±n`, `it1-it2` are the wrapped iterator's -/
+def indexedOps (c : List Int) (start : Int) : Ops (Indexed It) where
+  mkAt p := ⟨⟨0, p⟩, start + p⟩
+  showI i := toString i.base.pos ++ "#" ++ toString i.index
+  inc := Indexed.inc stdBase
+  dec := Indexed.dec stdBase
+  postInc := Indexed.postInc stdBase
+  postDec := Indexed.postDec stdBase
+  addAssign := Indexed.addAssign stdBase
+  subAssign := Indexed.subAssign stdBase
+  plusPos i n := (Indexed.plus stdBase i n).pos
+  minusPos i n := (Indexed.minus stdBase i n).pos
+  nplusPos i n := (Indexed.plus stdBase i n).pos
+  at_ i n := getAt c (i.base.pos + n)
+  deref i := getAt c i.base.pos
+  index i := i.index
+  rel op _ l r := match op with
+    | "eq" => some (stdBase.eq l.base r.base) | "ne" => some (!stdBase.eq l.base r.base)
+    | "lt" => some (decide (stdBase.sub l.base r.base < 0)) | "le" => some (decide (stdBase.sub l.base r.base ≤ 0))
+    | "gt" => some (decide (stdBase.sub l.base r.base > 0)) | "ge" => some (decide (stdBase.sub l.base r.base ≥ 0))
+    | _ => none
+  diff _ l r := stdBase.sub l.base r.base
+
+def showOpt : Option Int → String
+  | some v => toString v
+  | none => "bad-op"
+
+/-- evaluate one iterator expression -/
+def runIt {I : Type} (o : Ops I) (k : KInfo) (op : String) (args : List Int) (cv : String) : String :=
+  let cvs := cv.toList
+  if !cvs.all (fun ch => ch == 'm' || ch == 'c') then "bad-op" else
+  let u1 := ["preinc", "postinc", "predec", "postdec", "incdec", "decinc", "deref", "index"].contains op
+  let u2 := ["addeq", "subeq", "plus", "minus", "nplus", "steps", "at"].contains op
+  let bn := ["eq", "ne", "lt", "le", "gt", "ge", "diff"].contains op
+  if !(u1 || u2 || bn) then "bad-op" else
+  if args.length != (if u1 then 1 else 2) || cvs.length != (if bn then 2 else 1) then "bad-op" else
+  let p := args.headD 0
+  let n := k.n
+  let lo := k.lo
+  if p < lo ∨ p > n then "bad-op" else
+  let it := o.mkAt p
+  if u1 then
+    match op with
+    | "preinc" => if p ≥ n then "bad-op" else let s := o.showI (o.inc it); s ++ " " ++ s
+    | "postinc" => if p ≥ n then "bad-op" else let (r, a) := o.postInc it; o.showI r ++ " " ++ o.showI a
+    | "incdec" => if p ≥ n ∨ k.cat < 1 then "bad-op" else o.showI (o.dec (o.inc it))
+    | "predec" => if p ≤ lo ∨ k.cat < 1 then "bad-op" else let s := o.showI (o.dec it); s ++ " " ++ s
+    | "postdec" => if p ≤ lo ∨ k.cat < 1 then "bad-op" else let (r, a) := o.postDec it; o.showI r ++ " " ++ o.showI a
+    | "decinc" => if p ≤ lo ∨ k.cat < 1 then "bad-op" else o.showI (o.inc (o.dec it))
+    | "deref" => if p < 0 ∨ p ≥ n then "bad-op" else showOpt (o.deref it)
+    | "index" => if !k.hasIndex then "bad-op" else toString (o.index it)
+    | _ => "bad-op"
+  else if u2 then
+    let s := args.getD 1 0
+    if op == "steps" then
+      if p + s < lo ∨ p + s > n ∨ (s < 0 ∧ k.cat < 1) then "bad-op"
+      else o.showI (steps o.inc o.dec it s)
+    else if k.cat < 2 then "bad-op" else
+    let neg := op == "subeq" || op == "minus"
+    let target := if neg then p - s else p + s
+    if op == "at" then
+      if target < 0 ∨ target ≥ n then "bad-op" else showOpt (o.at_ it s)
+    else if target < lo ∨ target > n then "bad-op"
+    else match op with
+      | "addeq" => o.showI (o.addAssign it s)
+      | "subeq" => o.showI (o.subAssign it s)
+      | "plus" => toString (o.plusPos it s) ++ " " ++ o.showI it
+      | "minus" => toString (o.minusPos it s) ++ " " ++ o.showI it
+      | "nplus" => if !k.nplus then "bad-op" else toString (o.nplusPos it s) ++ " " ++ o.showI it
+      | _ => "bad-op"
+  else
+    let q := args.getD 1 0
+    if q < lo ∨ q > n then "bad-op" else
+    let c0 := cvs.headD 'm'
+    let c1 := cvs.getD 1 'm'
+    -- `std::is_convertible<T2,T1>`: false only when a const iterator would have to become a mutable one
+    let conv := !(k.oneWay && c0 == 'm' && c1 == 'c')
+    let x := o.mkAt p
+    let y := o.mkAt q
+    let relOk := k.cat ≥ 2 ∧ (k.mixedRel ∨ c0 == c1)
+    if op == "diff" then
+      if relOk then toString (o.diff conv x y) else "bad-op"
+    else if op == "eq" ∨ op == "ne" ∨ relOk then
+      match o.rel op conv x y with
+      | some b => showB b
+      | none => "bad-op"
+    else "bad-op"
+
+structure Kind where
+  name : String
+  plus : Option Nat
+  vals : List Int          -- container values (for from:to kinds the values from..to-1)
+  fromTo : Option (Int × Int)
+
+def rangeList (f t : Int) : List Int := (List.range (t - f).toNat).map (fun (i : Nat) => f + (i : Int))
+
+/-- parse and validate kind token + container spec as the harness' `withKind` does -/
+def parseKind (kindTok spec : String) : Option Kind :=
+  match splitPlus kindTok with
+  | none => none
+  | some (name, plus) =>
+    if (irType name).isSome || name == "trir" then
+      if plus.isSome then none else
+      match parseFromTo spec with
+      | none => none
+      | some (f, t) =>
+        if f > t ∨ t - f > 64 then none else
+        let ok := match irType name with
+          | some (bits, sgn) => typeFits bits sgn f t
+          | none => typeFits 32 true f t && decide (f ≥ -100000 ∧ t ≤ 100000)
+        if ok then some ⟨name, none, rangeList f t, some (f, t)⟩ else none
+    else
+      match parseVals spec 12 1000000 with
+      | none => none
+      | some v =>
+        let n := v.length
+        let needPlus := ["al3", "al100", "iiv", "iil", "iif"].contains name
+        let known := ["dynv", "fvec", "dmat", "fmat", "diag", "al3", "al100", "sll", "sllmod", "gira", "gibi", "gifw",
+                      "iiv", "iil", "iif", "trv", "trl", "trf", "spdv", "owra", "owbi"].contains name
+        let sizeOk := match name with
+          | "fvec" => [1, 3, 6].contains n
+          | "fmat" => [2, 3].contains n
+          | "diag" => [2, 3].contains n
+          | _ => true
+        if known && sizeOk && (needPlus == plus.isSome) then some ⟨name, plus, v, none⟩ else none
+
+def kinfo (k : Kind) : KInfo :=
+  let n : Int := k.vals.length
+  let bb := ["dynv", "fvec", "dmat", "fmat", "diag", "gira", "gibi", "gifw", "owra", "owbi"].contains k.name
+  let cat : Nat :=
+    if ["diag", "gibi", "iil", "trl", "owbi"].contains k.name then 1
+    else if ["sll", "sllmod", "gifw", "iif", "trf"].contains k.name then 0 else 2
+  { cat := cat, lo := if bb then -1 else 0, n := n,
+    mixedRel := !(["al3", "al100"].contains k.name),
+    nplus := (irType k.name).isSome || ["trv", "spdv", "trir"].contains k.name,
+    hasIndex := ["dynv", "fvec", "dmat", "fmat", "diag", "iiv", "iil", "iif"].contains k.name,
+    oneWay := ["al3", "al100", "sll", "sllmod", "owra", "owbi"].contains k.name }
+
+def handleIt (kindTok spec op : String) (rest : List String) : String :=
+  match parseKind kindTok spec with
+  | none => "bad-op"
+  | some k =>
+    match rest.reverse with
+    | [] => "bad-op"
+    | cv :: argsRev =>
+      match argsRev.reverse.mapM parseInt12 with
+      | none => "bad-op"
+      | some args =>
+        let ki := kinfo k
+        match k.fromTo with
+        | some (f, _) =>
+          if k.name == "trir" then
+            runIt (newOps irBase (fun p => (⟨f + p⟩ : IR)) (fun i => i.value - f) (fun i => some (fT (IR.deref i)))) ki op args cv
+          else runIt (irOps f) ki op args cv
+        | none =>
+          let c := k.vals
+          if ["iiv", "iil", "iif"].contains k.name then runIt (indexedOps c (k.plus.getD 0)) ki op args cv
+          else if ["trv", "trl", "trf"].contains k.name then
+            runIt (newOps stdBase (fun p => (⟨0, p⟩ : It)) (fun i => i.pos) (fun i => (dereference c i).map fT)) ki op args cv
+          else if k.name == "spdv" then
+            runIt (newOps denseBase (fun p => (⟨0, p⟩ : It)) (fun i => i.pos) (dereference c)) ki op args cv
+          else runIt (legacyOps (k.name == "diag" || k.name == "gibi" || k.name == "owbi") c) ki op args cv
+
+/-! ### ranges -/
+
+def showPairs (l : List (Int × Int)) : String :=
+  "[" ++ ",".intercalate (l.map fun (a, b) => toString a ++ ":" ++ toString b) ++ "]"
+
+def sirCatalogue : List (String × Int × Int × Nat × Bool) :=
+  [("sir_i32", 0, 0, 32, true), ("sir_i32", 0, 5, 32, true), ("sir_i32", 2, 7, 32, true), ("sir_i32", -3, 2, 32, true),
+   ("sir_u64", 0, 4, 64, false), ("sir_u64", 3, 3, 64, false), ("sir_u64", 1, 9, 64, false),
+   ("sir_u8", 250, 255, 8, false), ("sir_i8", -128, -125, 8, true), ("sir_i16", -7, -2, 16, true)]
+
+def integralRangeOp (bits : Nat) (sgn : Bool) (f t : Int) (op : String) (arg : List Int) (enumLimit : Bool) : String :=
+  let r : IntegralRange := ⟨f, t⟩
+  match op, arg with
+  | "size", [] => toString (r.size bits)
+  | "empty", [] => showB r.empty
+  | "contains", [x] => if typeFits bits sgn x x then showB (r.contains x) else "bad-op"
+  | "at", [i] => if i < 0 ∨ i ≥ t - f then "bad-op" else toString (r.get i)
+  | "enum", [] => if enumLimit ∧ t - f > 4096 then "bad-op" else showList r.enumerate
+  | _, _ => "bad-op"
+
+def indexedLoop (c : List Int) : Nat → Indexed It → Indexed It → List Int
+  | 0, _, _ => []
+  | fuel+1, it, e =>
+    if !stdBase.eq it.base e.base then
+      match getAt c it.base.pos with
+      | some x => x :: indexedLoop c fuel (Indexed.inc stdBase it) e
+      | none => []
+    else []
+
+def handleRg (kind spec op : String) (rest : List String) : String :=
+  if kind == "itr" || kind == "itrsl" then
+    match op, rest with
+    | "enum", [a, b] =>
+      match parseVals spec 12 1000000, parseInt12 a, parseInt12 b with
+      | some v, some a, some b =>
+        if a < 0 ∨ a > b ∨ b > v.length then "bad-op"
+        else showList (iteratorRangeEnumerate v a.toNat b.toNat)
+      | _, _, _ => "bad-op"
+    | _, _ => "bad-op"
+  else
+  match rest.mapM parseLong with
+  | none => "bad-op"
+  | some arg =>
+    if (if op == "contains" || op == "at" then arg.length != 1 else !arg.isEmpty) then "bad-op" else
+    if kind.startsWith "sir_" then
+      match parseFromTo spec with
+      | none => "bad-op"
+      | some (f, t) =>
+        match sirCatalogue.find? (fun (k, f', t', _, _) => k == kind && f' == f && t' == t) with
+        | some (_, _, _, bits, sgn) => integralRangeOp bits sgn f t op arg false
+        | none => "bad-op"
+    else match irType kind with
+    | some (bits, sgn) =>
+      match parseFromTo spec with
+      | none => "bad-op"
+      | some (f, t) => if typeFits bits sgn f t then integralRangeOp bits sgn f t op arg true else "bad-op"
+    | none =>
+      if op != "enum" then "bad-op" else
+      match parseKind kind spec with
+      | none => "bad-op"
+      | some k =>
+        let c := k.vals
+        match k.fromTo with
+        | some (f, t) =>   -- trir
+          let (vs, log) := transformedEnumerateIR fT ⟨f, t⟩
+          showList vs ++ " calls=" ++ showList log
+        | none =>
+          if ["trv", "trl", "trf"].contains k.name then
+            let (vs, log) := transformedEnumerate fT c
+            showList vs ++ " calls=" ++ showList log
+          else if k.name == "spdv" then showPairs (sparseEnumerate c)
+          else if ["iiv", "iil", "iif"].contains k.name then
+            showList (indexedLoop c c.length ⟨⟨0, 0⟩, (k.plus.getD 0 : Nat)⟩ ⟨⟨0, c.length⟩, 0⟩)
+          else showList (legacyLoop true c c.length ⟨0, 0⟩ ⟨0, c.length⟩)
+
+/-! ### hybrid helpers -/
+
+def seqCatalogue : List (List Int) :=
+  [[], [5], [3, 1, 4, 1, 5], [0, 1, 2, 3, 4, 5, 6, 7], [-2, 7, -2, 9], [2, 4, 6], [7, 0]]
+
+def staticRanges : List (Int × Int) := [(0, 0), (0, 1), (0, 4), (2, 5), (3, 3), (1, 8), (7, 8)]
+
+def sd (s d : String) : String := "s=" ++ s ++ " d=" ++ d
+
+def accF (acc e : Int) : Int := 3 * acc + e
+
+def containerOp (c : List Int) (op : String) (arg : List Int) : String :=
+  match op, arg with
+  | "size", [] => sd (toString (Hybrid.sizeStatic c)) (toString (Hybrid.sizeDynamic c))
+  | "elementAt", [i] =>
+    if i < 0 ∨ i ≥ c.length ∨ i ≥ 8 then "bad-op" else
+    match Hybrid.elementAtStatic c i.toNat, Hybrid.elementAtDynamic c i.toNat with
+    | some s, some d => sd (toString s) (toString d)
+    | _, _ => "bad-op"
+  | "forEach", [] =>
+    sd (showList (Hybrid.forEachStatic c (fun (l : List Int) e => l ++ [e]) []))
+       (showList (Hybrid.forEachDynamic c (fun (l : List Int) e => l ++ [e]) []))
+  | "accumulate", [init] =>
+    if init > 1000 ∨ init < -1000 then "bad-op"
+    else sd (toString (Hybrid.accumulateStatic c init accF)) (toString (Hybrid.accumulateDynamic c init accF))
+  | _, _ => "bad-op"
+
+def handleHy (ck vs op : String) (rest : List String) : String :=
+  match rest.mapM parseInt12 with
+  | none => "bad-op"
+  | some arg =>
+    if ck == "tuple" || ck == "tvec" || ck == "arr" then
+      match parseVals vs 8 1000 with
+      | none => "bad-op"
+      | some v =>
+        let lens : List Nat := if ck == "tuple" then [0, 1, 2, 3, 4, 5, 6] else if ck == "tvec" then [0, 1, 3, 6] else [0, 2, 5]
+        if lens.contains v.length then containerOp v op arg else "bad-op"
+    else if ck == "iseq" then
+      match parseVals vs 16 1000 with
+      | none => "bad-op"
+      | some v =>
+        if !seqCatalogue.contains v then "bad-op"
+        else if op == "switchCases" then
+          match arg with
+          | [x] =>
+            if x < -1000 ∨ x > 1000 then "bad-op" else
+            let d := Hybrid.switchSeqDynamic v x (fun i => 100 + i) (-1)
+            let s := if 0 ≤ x ∧ x < 10 then toString (Hybrid.switchSeqStatic v x (fun i => 100 + i) (-1)) else "n/a"
+            sd s (toString d)
+          | _ => "bad-op"
+        else containerOp v op arg
+    else if ck == "irange" then
+      match parseFromTo vs with
+      | none => "bad-op"
+      | some (f, t) =>
+        if op == "switchCases" then
+          match arg with
+          | [x] =>
+            if x < -1000 ∨ x > 1000 ∨ f < -1000 ∨ t > 1000 ∨ f > t then "bad-op" else
+            let d := Hybrid.switchRangeDynamic ⟨f, t⟩ x (fun i => 100 + i) (-1)
+            let s := if staticRanges.contains (f, t) then toString (Hybrid.switchRangeStatic ⟨f, t⟩ x (fun i => 100 + i) (-1)) else "n/a"
+            sd s (toString d)
+          | _ => "bad-op"
+        else if staticRanges.contains (f, t) then containerOp (IntegralRange.enumerate ⟨f, t⟩) op arg
+        else "bad-op"
+    else if ck == "none" then
+      if vs != "[]" then "bad-op" else
+      match op, arg with
+      | "ifElse", [c] =>
+        if c != 0 ∧ c != 1 then "bad-op"
+        else sd (toString (Hybrid.ifElseStatic (c == 1) (111 : Int) 222)) (toString (Hybrid.ifElseDynamic (c == 1) (111 : Int) 222))
+      | _, [x, y] =>
+        if x < 0 ∨ x > 7 ∨ y < 0 ∨ y > 7 then "bad-op" else
+        let num (f : Int → Int → Int) := sd (toString (Hybrid.functorStatic f x y)) (toString (Hybrid.functorDynamic f x y))
+        match op with
+        | "equal_to" =>
+          let f : Int → Int → Int := fun a b => if a = b then 1 else 0
+          sd (showB (Hybrid.functorStatic f x y == 1)) (showB (Hybrid.functorDynamic f x y == 1))
+        | "plus" => num (· + ·)
+        | "minus" => num (· - ·)
+        | "max" => num max
+        | "min" => num min
+        | _ => "bad-op"
+      | _, _ => "bad-op"
+    else "bad-op"
+
+def handle (line : String) : String :=
+  match tokens line with
+  | "it" :: kind :: spec :: op :: rest => if rest.length < 2 then "bad-op" else handleIt kind spec op rest
+  | "rg" :: kind :: spec :: op :: rest => handleRg kind spec op rest
+  | "hy" :: ck :: vs :: op :: rest => handleHy ck vs op rest
+  | _ => "bad-op"
+
+end C16Drv
+
+def main : IO Unit := DV.runDriver C16Drv.handle
